@@ -1,5 +1,6 @@
 import SpoxModel.Model.MLInfer
 import SpoxModel.Model.RtShape
+import SpoxModel.Model.ScanRun
 import SpoxModel.Lemmas.MLShape
 import SpoxModel.Generated.MLOverrides
 /-!
@@ -855,6 +856,136 @@ theorem loop_scan_output_sound_noM (a s : List Ty) (body : Body) (cond : Option 
 example : loopRunOpt breakAt2 none none 10 [⟨.f32, [3]⟩] = some ([⟨.f32, [3]⟩], [[⟨.i64, [1]⟩], [⟨.i64, [1]⟩]]) := by decide
 example : loopRunOpt (fun _ vs => some (true, vs, [])) none none 10 [⟨.f32, [3]⟩] = none := by decide
 
+
+/-! ### Scan: axes (directions do not change shapes) -/
+
+/-- A slice of a scan input along ANY axis (negative too): its length conforms to the dim the input's
+    type has at that axis, and the slice conforms to the type with that axis removed. -/
+theorem scan_slice_sound (axis : Int) (x : RtVal) (X : Ty) (n : Nat) (sl : RtVal) (len : Dim) (slT : Ty)
+    (hx : conforms x (some X) = true) (hs : scanSlice axis x = some (n, sl))
+    (ht : scanSliceTy axis X = some (len, slT)) : dimOk n len = true ∧ conforms sl (some slT) = true := by
+  obtain ⟨xe, xs⟩ := x
+  obtain ⟨Xe, Xs⟩ := X
+  simp only [conforms, Bool.and_eq_true] at hx
+  cases Xs with
+  | none =>
+    simp only [scanSliceTy, Option.some.injEq, Prod.mk.injEq] at ht
+    obtain ⟨h1, h2⟩ := ht; subst h1; subst h2
+    simp only [scanSlice] at hs
+    split at hs
+    · simp at hs
+    · simp only [Option.some.injEq, Prod.mk.injEq] at hs
+      obtain ⟨-, h2⟩ := hs; subst h2
+      simp [conforms, hx.1]
+  | some ds =>
+    have hlen := dimsOk_length hx.2
+    simp only [scanSliceTy] at ht
+    simp only [scanSlice] at hs
+    rw [hlen] at hs
+    split at hs
+    · simp at hs
+    · rename_i i hi
+      rw [hi] at ht
+      simp only [Option.some.injEq, Prod.mk.injEq] at hs ht
+      obtain ⟨h1, h2⟩ := hs; obtain ⟨h3, h4⟩ := ht
+      subst h1; subst h2; subst h3; subst h4
+      exact ⟨dimsOk_getD i hx.2, by simp [conforms, hx.1, dimsOk_delAt i hx.2]⟩
+
+/-- For the default axis 0 spox's prescription for the body's slice argument (`shape[1:]`) IS the slice
+    type; for any other axis it is not (`scan_prescription_axis1_counterexample`). -/
+theorem scan_spox_prescription_axis0 (X : Ty) (len : Dim) (slT : Ty)
+    (ht : scanSliceTy 0 X = some (len, slT)) : slT = scanSliceTySpox X := by
+  obtain ⟨e, s⟩ := X
+  cases s with
+  | none => simp only [scanSliceTy, Option.some.injEq, Prod.mk.injEq] at ht; rw [← ht.2]; rfl
+  | some ds =>
+    cases ds with
+    | nil => simp [scanSliceTy, normAxis] at ht
+    | cons d r =>
+      simp [scanSliceTy, normAxis] at ht
+      rw [← ht.2]; simp [scanSliceTySpox, delAt]
+
+/-- `scan_input_axes = [1]` on `f32[2,3]`: the slices are `f32[2]`, the prescribed argument type `f32[3]`
+    (ONNX's Scan inference rejects that construction; with equal or symbolic dims nothing false is claimed). -/
+theorem scan_prescription_axis1_counterexample :
+    ∃ n sl, scanSlice 1 ⟨.f32, [2, 3]⟩ = some (n, sl) ∧
+      conforms sl (some (scanSliceTySpox ⟨.f32, some [.const 2, .const 3]⟩)) = false :=
+  ⟨3, ⟨.f32, [2]⟩, by decide, by decide⟩
+
+/-- Stacking `n` equal rows along any output axis: if a row conforms to the body's declared result type
+    and `n` conforms to the scan-length dim, the stacked value conforms to the reported scan-output type. -/
+theorem scan_stack_sound (n : Nat) (axis : Int) (rows : List RtVal) (v : RtVal) (t ty : Ty) (len : Dim) (w : RtVal)
+    (hv : rows.head? = some v) (hc : conforms v (some t) = true) (hn : dimOk n len = true)
+    (hs : stackAtN n axis rows = some w) (hty : scanOutTy axis len t = some ty) :
+    conforms w (some ty) = true := by
+  simp only [stackAtN] at hs
+  split at hs
+  · rename_i hlen
+    cases rows with
+    | nil => simp at hv
+    | cons v' vs =>
+      simp only [List.head?_cons, Option.some.injEq] at hv; subst hv
+      simp only [List.length_cons, beq_iff_eq] at hlen
+      obtain ⟨te, ts⟩ := t
+      simp only [conforms, Bool.and_eq_true] at hc
+      simp only [stackAt] at hs
+      split at hs
+      · cases ts with
+        | none =>
+          simp only [scanOutTy, Option.some.injEq] at hty; subst hty
+          split at hs
+          · simp at hs
+          · simp only [Option.some.injEq] at hs; subst hs; simp [conforms, hc.1]
+        | some ds =>
+          have hl := dimsOk_length hc.2
+          simp only [scanOutTy] at hty
+          rw [hl] at hs
+          split at hs
+          · simp at hs
+          · rename_i i hi
+            rw [hi] at hty
+            simp only [Option.some.injEq] at hs hty; subst hs; subst hty
+            rw [hlen]
+            simp [conforms, hc.1, dimsOk_insAt i n len hc.2 hn]
+      · simp at hs
+  · simp at hs
+
+/-- **Scan output soundness, any input axis / output axis**: scan output `j` of a run — the rows the
+    body returned in column `j`, stacked along `scan_output_axes[j]` — conforms to the reported type "the
+    body's declared result type with the dim of scan input 0 at ITS scan axis inserted at the output
+    axis", provided the first row conforms to the body's declared result type. -/
+theorem scan_output_sound (inAxis outAxis : Int) (x0 : RtVal) (X0 : Ty) (n : Nat) (sl : RtVal) (len : Dim) (slT : Ty)
+    (col : List RtVal) (v : RtVal) (t ty : Ty) (w : RtVal)
+    (hx : conforms x0 (some X0) = true) (hs : scanSlice inAxis x0 = some (n, sl))
+    (ht : scanSliceTy inAxis X0 = some (len, slT))
+    (hv : col.head? = some v) (hc : conforms v (some t) = true)
+    (hst : stackAtN n outAxis col = some w) (hty : scanOutTy outAxis len t = some ty) :
+    conforms w (some ty) = true :=
+  scan_stack_sound n outAxis col v t ty len w hv hc (scan_slice_sound inAxis x0 X0 n sl len slT hx hs ht).1 hst hty
+
+/-- The number of rows of a scan is the scan length (so `stackAtN`'s check is what a run satisfies). -/
+theorem scanIter_rows (body : ScanBody) (slices : List RtVal) : ∀ (n t : Nat) (st fin : List RtVal)
+    (rows : List (List RtVal)), scanIter body slices n t st = some (fin, rows) → rows.length = n := by
+  intro n
+  induction n with
+  | zero => intro t st fin rows h; simp only [scanIter, Option.some.injEq, Prod.mk.injEq] at h; rw [← h.2]; rfl
+  | succ m ih =>
+    intro t st fin rows h
+    simp only [scanIter] at h
+    split at h
+    · simp at h
+    · split at h
+      · simp at h
+      · rename_i fin' rows' hr
+        simp only [Option.some.injEq, Prod.mk.injEq] at h
+        rw [← h.2]; simp [ih _ _ _ _ hr]
+
+-- non-vacuity: f32[2,3,4] scanned along axis -2 (length 3), rows of shape [2,4] stacked along output axis -1
+example : scanRun { inAxes := [-2], outAxes := [-1, 1] } (fun _ st sl => some (st, sl ++ [⟨.i64, [7]⟩])) 2
+    [⟨.f32, [5]⟩] [⟨.f32, [2, 3, 4]⟩] = some ([⟨.f32, [5]⟩], [⟨.f32, [2, 4, 3]⟩, ⟨.i64, [7, 3]⟩]) := by decide
+example : scanOutTy (-1) (.const 3) ⟨.f32, some [.const 2, .named "N"]⟩ = some ⟨.f32, some [.const 2, .named "N", .const 3]⟩ := by decide
+example : scanSliceTy (-2) ⟨.f32, some [.const 2, .const 3, .const 4]⟩ = some (.const 3, ⟨.f32, some [.const 2, .const 4]⟩) := by decide
+example : scanRun {} (fun _ st sl => some (st, sl)) 1 [] [⟨.f32, [0, 4]⟩] = none := by decide
 
 /-- No modelled routine turns a non-tensor input into a tensor claim: it raises, or (Binarizer,
     Normalizer) hands the non-tensor type through — for which no runtime value exists. -/
